@@ -74,17 +74,19 @@ impl QuicListener {
             let source = conn.remote_address();
             let source = crate::common::try_map_v4_addr(source);
             debug!("{}: QUIC connected from {:?}", self.name, source);
-            match conn.await.context("connection") {
-                Ok(conn) => {
-                    let this = self.clone();
-                    let state = state.clone();
-                    let queue = queue.clone();
-                    tokio::spawn(this.client_thread(conn, source, state, queue));
+            // the handshake is awaited in the connection's own task: a peer that stalls it must not keep
+            // others from connecting
+            let this = self.clone();
+            let state = state.clone();
+            let queue = queue.clone();
+            tokio::spawn(async move {
+                match conn.await.context("connection") {
+                    Ok(conn) => this.client_thread(conn, source, state, queue).await,
+                    Err(e) => {
+                        warn!("{}, Accept error: {}: cause: {:?}", this.name, e, e.cause);
+                    }
                 }
-                Err(e) => {
-                    warn!("{}, Accept error: {}: cause: {:?}", self.name, e, e.cause);
-                }
-            }
+            });
         }
         Ok(())
     }
